@@ -125,6 +125,12 @@ def h_namelut(ctx):
             ctx.check_eq('namelut/getitem', [lut[nm].cu_ofs, lut[nm].die_ofs], [cu, die])
     ctx.check('namelut/absent-none', lut.get('nope') is None)
     ctx.check_eq('namelut/items', [(k, v.cu_ofs, v.die_ofs) for k, v in lut.items()], want)
+    # the remaining views of the same table
+    ctx.check_eq('namelut/keys', list(lut.keys()), [w[0] for w in want])
+    ctx.check_eq('namelut/values', [(v.cu_ofs, v.die_ofs) for v in lut.values()], [(w[1], w[2]) for w in want])
+    ctx.check_eq('namelut/contains', ['nope' in lut] + [w[0] in lut for w in want], [False] + [True] * len(want))
+    ents = lut.get_entries()
+    ctx.check_eq('namelut/get_entries', [(k, v.cu_ofs, v.die_ofs) for k, v in ents.items()], want)
     hs = lut.get_cu_headers()
     ctx.check_eq('namelut/headers', [(h.unit_length, h.version, h.debug_info_offset, h.debug_info_length) for h in hs], hdrs)
 
